@@ -29,7 +29,7 @@ RULE = (
     "1-3 generated GFF3/GTF inputs (same or different; 60-400 lines), start offsets 0-20 ms, one shared TMPDIR, separate "
     "output files, followed by 2-32 concurrent readers of one finished file; input variants: gzip with a ##FASTA tail, GTF without "
     "exons, shallow GFF3, inference off, and inputs with a duplicate ID whose import is expected to fail while the others are held "
-    "between writing and reading back their intermediate file. Every configuration has >= 2 processes "
+    "between writing and reading back their intermediate file. Every other solitary reference import is extended once through update() (its intermediate file must be gone as well). Every configuration has >= 2 processes "
     "(non-trivial); how many import pairs actually overlapped in time (monotonic-clock intervals) and how many workers met at "
     "the temp-file barrier is measured per run and reported under classes ('#...'); distinct by hash of the configuration."
 )
